@@ -411,7 +411,9 @@ def kani_playback(scratch, crate, cfg, ob, allmods):
     try:
         p2 = subprocess.run(cmd2, cwd=scratch.src, env=env, text=True, capture_output=True, timeout=900)
         nout = p2.stdout + p2.stderr
-        reproduced = (p2.returncode != 0) and ("panicked" in nout or "FAILED" in nout)
+        reproduced = bool(re.search(r"test \S*" + re.escape(test_name) + r" \.\.\. FAILED", nout)) or ("panicked at" in nout)
+        passed = bool(re.search(r"test \S*" + re.escape(test_name) + r" \.\.\. ok", nout)) and not reproduced
     except subprocess.TimeoutExpired:
-        nout, reproduced = "native replay timed out", False
-    return dict(test=test_src, test_name=test_name, native=nout[-4000:], reproduced=reproduced, kani_out=out[-4000:])
+        nout, reproduced, passed = "native replay timed out", False, False
+    keep = [l for l in nout.split("\n") if re.search(r"^test |panicked|assertion|test result|^error", l)]
+    return dict(test=test_src, test_name=test_name, native="\n".join(keep[-60:]) or nout[-3000:], reproduced=reproduced, passed_natively=passed, kani_out=out[-4000:])
